@@ -65,8 +65,9 @@ def outcomes(facts, key, limit=4000):
             continue
         last = body.term(path[-1])
         atoms = []
+        view = body_on_path(body, path)  # conditions are resolved along this path (a variable joined from several arms has one value here)
         for a, b in zip(path, path[1:]):
-            eg = body.edge_guards(a, b)
+            eg = view.edge_guards(a, b)
             if eg is not None and not is_dropflag_cond(eg[0]):
                 atoms.append(models.canon_atom(atom_of(eg[0], eg[1])))
         effects = []
